@@ -269,6 +269,7 @@ impl GraphEngine {
             vlock!("wal", self.wal);
             let mut wal = self.wal.lock().unwrap();
             let _vh6 = vheld!("wal");
+            let mut wal = wal.tx_scope()?;
             wal.append(&WalRecord::BeginTx { txid })?;
             wal.append(&WalRecord::CreateLabel {
                 name: name.to_string(),
@@ -276,6 +277,7 @@ impl GraphEngine {
             })?;
             wal.append(&WalRecord::CommitTx { txid })?;
             wal.fsync()?;
+            wal.commit();
         }
 
         // Update Published Snapshot
@@ -498,6 +500,7 @@ impl GraphEngine {
             vlock!("wal", self.wal);
             let mut wal = self.wal.lock().unwrap();
             let _vh19 = vheld!("wal");
+            let mut wal = wal.tx_scope()?;
             wal.append(&WalRecord::BeginTx { txid: system_txid })?;
             wal.append(&WalRecord::ManifestSwitch {
                 epoch,
@@ -514,6 +517,7 @@ impl GraphEngine {
             })?;
             wal.append(&WalRecord::CommitTx { txid: system_txid })?;
             wal.fsync()?;
+            wal.commit();
         }
 
         vpoint!("compact.after_wal");
@@ -898,6 +902,7 @@ impl<'a> WriteTxn<'a> {
             vlock!("wal", self.engine.wal);
             let mut wal = self.engine.wal.lock().unwrap();
             let _vh30 = vheld!("wal");
+            let mut wal = wal.tx_scope()?;
             wal.append(&WalRecord::BeginTx { txid: self.txid })?;
 
             for (external_id, label_id, internal_id) in &self.created_nodes {
@@ -1153,6 +1158,7 @@ impl<'a> WriteTxn<'a> {
             // wal.append calls flush internally, we just need fsync at end of commit
             wal.append(&WalRecord::CommitTx { txid: self.txid })?;
             wal.fsync()?;
+            wal.commit();
         }
 
         vpoint!("commit.after_wal");
